@@ -217,6 +217,9 @@ def run_child(fn: Callable[..., Any], *args: Any, wall_s: float | None = None, m
 # capturing the process interface inside a child
 
 
+_LOGGING_STATE = {"configured": False}  # has logging.basicConfig() configured the root logger in this process?
+
+
 class Capture:
     """Captures logging records, stdout and stderr for one execution."""
 
@@ -248,11 +251,26 @@ class Capture:
         self._old = (sys.stdout, sys.stderr)
         sys.stdout, sys.stderr = self.stdout, self.stderr
         root = logging.getLogger()
-        self._root_level = root.level
-        root.setLevel(logging.DEBUG)
+        # Logger *levels* are process state of the program under test: they are neither raised for the
+        # capture nor restored afterwards (a level one run sets is what the next run in the process finds).
+        # The capture handler therefore sees exactly the records a real handler would see.
         root.addHandler(self.handler)
         for name in ("x816", "a816", "a816.parser", "a816.nodes"):
             logging.getLogger(name).addHandler(self.handler)
+        # logging.basicConfig() does nothing once the root logger has a handler - and ours is one.  Emulate
+        # what it does in a process without this harness: the first call configures (sets the level; the
+        # stream handler it would add is represented by the capture), later calls are no-ops.
+        self._real_basic_config = logging.basicConfig
+
+        def _basic_config(**kw: Any) -> None:
+            st = _LOGGING_STATE
+            if st["configured"] and not kw.get("force"):
+                return
+            st["configured"] = True
+            if kw.get("level") is not None:
+                root.setLevel(kw["level"])
+
+        logging.basicConfig = _basic_config  # type: ignore[assignment]
         # Parser.parse() calls logger.exception(); keep the default
         # lastResort handler from writing to the real stderr.
         logging.lastResort = None  # type: ignore[assignment]
@@ -262,9 +280,9 @@ class Capture:
         import logging
 
         sys.stdout, sys.stderr = self._old
+        logging.basicConfig = self._real_basic_config  # type: ignore[assignment]
         root = logging.getLogger()
         root.removeHandler(self.handler)
-        root.setLevel(self._root_level)
         for name in ("x816", "a816", "a816.parser", "a816.nodes"):
             logging.getLogger(name).removeHandler(self.handler)
 
@@ -296,3 +314,44 @@ def describe_exc(e: BaseException) -> dict[str, str]:
     except BaseException as inner:  # noqa: BLE001 - a broken __str__ in the code under test is an outcome, not a harness error
         text = f"<str() of the exception raised {type(inner).__name__}: {inner}>"
     return {"type": type(e).__name__, "msg": scrub(text)[:400]}
+
+
+# ---------------------------------------------------------------------------
+# fresh interpreters (interpreter flags and hash seed are part of the environment)
+
+
+def _fresh_fn_main(path: str) -> None:
+    import importlib
+
+    with open(path, "rb") as f:
+        modname, fname, args = pickle.load(f)
+    import_repo()
+    res = getattr(importlib.import_module(modname), fname)(*args)
+    sys.stdout.buffer.write(pickle.dumps(res))
+
+
+def run_fresh_fn(modname: str, fname: str, args: tuple[Any, ...], hashseed: str = "0", pyflags: list[str] | None = None, wall_s: float = 120.0) -> Any:
+    """modname.fname(*args) in a brand-new interpreter started with the given flags (e.g. ["-O"]) and
+    PYTHONHASHSEED; the tree under test is imported there from scratch."""
+    import subprocess
+    import tempfile
+
+    fd, job = tempfile.mkstemp(prefix="a816-verif-job-", dir="/dev/shm" if os.path.isdir("/dev/shm") else None)
+    try:
+        with os.fdopen(fd, "wb") as f:
+            pickle.dump((modname, fname, args), f)
+        env = dict(os.environ, PYTHONHASHSEED=hashseed, PYTHONDONTWRITEBYTECODE="1", VERIF_REPO=REPO)
+        env.pop("PYTHONOPTIMIZE", None)
+        code = "import sys; sys.path.insert(0, %r); from sim.core import _fresh_fn_main; _fresh_fn_main(%r)" % (VERIF_DIR, job)
+        try:
+            p = subprocess.run(["/venv/bin/python", "-B"] + list(pyflags or []) + ["-c", code], env=env, capture_output=True, timeout=wall_s, cwd=VERIF_DIR)
+        except subprocess.TimeoutExpired:
+            raise ChildTimeout(f"fresh interpreter run exceeded {wall_s} s")
+        if p.returncode != 0 or not p.stdout:
+            raise HarnessError(f"fresh interpreter run failed: rc={p.returncode} stderr={p.stderr[-500:]!r}")
+        return pickle.loads(p.stdout)
+    finally:
+        try:
+            os.unlink(job)
+        except OSError:
+            pass
